@@ -276,7 +276,37 @@ def start_deck(rng):
     from pptx.opc.packuri import PackURI
 
     prs = Presentation()
-    kind = rng.choice(["default", "default", "scrambled", "scrambled", "jump-only-slide", "foreign-part-rels"])
+    kind = rng.choice(["default", "default", "scrambled", "scrambled", "jump-only-slide", "foreign-part-rels", "foreign-names-and-duplicate-rels"])
+    if kind == "foreign-names-and-duplicate-rels":
+        # what other producers write and the library never does: a media member whose NAME holds a literal percent escape
+        # (Picture%201.png), and one relationship present twice under two ids (the same picture placed twice)
+        s_ = prs.slides.add_slide(prs.slide_layouts[6])
+        s_.shapes.add_picture(io.BytesIO(imgs()[1]), 0, 0); s_.shapes.add_picture(io.BytesIO(imgs()[1]), 9, 9)
+        b = io.BytesIO(); prs.save(b)
+        z = zipfile.ZipFile(io.BytesIO(b.getvalue()))
+        o = io.BytesIO()
+        with zipfile.ZipFile(o, "w", zipfile.ZIP_DEFLATED) as zo:
+            for n in z.namelist():
+                data = z.read(n)
+                if n == "ppt/media/image1.png":
+                    n = "ppt/media/Picture%201.png"
+                if n == "ppt/slides/_rels/slide1.xml.rels":
+                    t = data.decode("utf-8").replace("../media/image1.png", "../media/Picture%201.png")
+                    m = re.search(r'<Relationship [^>]*media/Picture%201.png[^>]*/>', t)
+                    if m:
+                        rid = re.search(r'Id="(rId\d+)"', m.group(0)).group(1)
+                        t = t.replace("</Relationships>", m.group(0).replace('Id="%s"' % rid, 'Id="rId77"') + "</Relationships>")
+                    data = t.encode("utf-8")
+                if n == "ppt/slides/slide1.xml" and b'r:embed="' in data:
+                    t = data.decode("utf-8")
+                    first = t.find('r:embed="')
+                    second = t.find('r:embed="', first + 1)
+                    if second > 0:
+                        end = t.find('"', second + 9)
+                        t = t[:second] + 'r:embed="rId77' + t[end:]
+                    data = t.encode("utf-8")
+                zo.writestr(n, data)
+        return Presentation(io.BytesIO(o.getvalue())), "scrambled+foreign-names-and-duplicate-rels"
     if kind == "jump-only-slide":
         # a slide part that neither the slide-id list nor the presentation part's relationships mention and that only a
         # slide jump from another slide keeps in the package; its number lies inside 1..N of the listed slides
